@@ -217,9 +217,9 @@ fn run_threads(ctx: &Ctx, l: &mut Local) {
                 if ctx.quick() && alg != "mpqs" && bits > 120 && bits % 4 != 0 {
                     continue;
                 }
-                // three inputs per size in the upper range of MPQS (its threaded path has its own block schedule;
+                // five inputs per size in the upper range of MPQS (its threaded path has its own block schedule;
                 // the multiplier moves the size the parameters see by up to 6 bits)
-                let per_size = if alg == "mpqs" && bits >= 140 { ctx.pick(3, 4) } else { ctx.pick(1, 2) };
+                let per_size = if alg == "mpqs" && bits >= 140 { ctx.pick(5, 8) } else { ctx.pick(1, 2) };
                 for _ in 0..per_size {
                     let a = bits / 2 - r.below(3) as u32;
                     let p = gen_prime(a, r.next());
